@@ -179,7 +179,10 @@ def judge_c02(model, L, out, res):
     if v == 'sat':
         res['fails'].append({'ob': 'attain', 'cause': 'other', 'point': zq.point_json(pt)})
     # the "consequently" clause, asked directly on a sample: same status and same optimal value (z3 Optimize, exact)
-    if res.get('idx', 0) % 7 == 0 and not res['fails']:
+    # (not on models with strict rows: their optimum can be an unattained infimum, and the float-noise relaxation of
+    # Lin moves discretely across a strict boundary - the pointwise obligations above are the claim there)
+    strict = any(c.get('c') in ('<', '>') for c in model['cons'])
+    if res.get('idx', 0) % 7 == 0 and not res['fails'] and not strict:
         so, vo = optimize(S, f, d)
         sl, vl = optimize(Ln_eps, g, d)   # relaxed by the float-noise margin, like every obligation about Lin
         res['q'] += 2
@@ -605,6 +608,19 @@ def family(prop, t, sd):
     if prop == 'C07':
         items += integer_rounding_family(t)
         items += ill_conditioned_family(t)
+    # strict comparisons: the first <= / >= row of every ninth single-constraint model made strict (integer and Boolean
+    # operands are lowered to a non-strict row one unit further in, real ones keep the strict relation)
+    import copy as _copy
+    extra = []
+    for i, it in enumerate(items):
+        if i % 9 == 4 and it.get('fam', '').startswith('M1'):
+            mm = _copy.deepcopy(it['model'])
+            for c in mm['cons']:
+                if c.get('c') in ('<=', '>='):
+                    c['c'] = c['c'][0]
+                    extra.append(dict(it, fam='M1strict', model=mm))
+                    break
+    items += extra
     items += gen.diverging_family()
     items += hollow_integer_family()
     items += gen.nested_family()
@@ -798,7 +814,7 @@ def main(prop):
             'solver': 'z3 %s (python API); timeout %d ms per query' % (z3.get_version_string(), QT),
             'driver_build_s': round(build_s, 1), 'check_s': round(time.time() - t0, 1),
             'kani': kani_summary,
-            'outside': ['strict comparisons', 'constants outside the dyadic set (C07 adds a non-dyadic family)', 'programs larger than the family',
+            'outside': ['strict comparisons beyond the strict variants of every ninth single-constraint model (optimum comparison skipped there)', 'constants outside the dyadic set (C07 adds a non-dyadic family)', 'programs larger than the family',
                         'models the compiler rejects (counted by kind in by_status)'],
         },
         'assumptions': ['independent semantics sem.py is the meaning of the source language', 'z3 verdicts are trusted (5% cross-check with z3 4.8.12 and cvc5 in the thorough tier)',
